@@ -197,6 +197,23 @@ macro_rules! fam_uint {
                             cs.group();
                             chk!(cs, "MontyForm x * inv(x) == one", cls, &Out::v(&from_big(&(BigUint::one() % m), $n)), Out::v(&w(&(x * Option::<MontyForm<$n>>::from(x.inv()).unwrap()).retrieve())));
                         }
+                    } else {
+                        // m = 1: gcd(a, 1) = 1 for every a, so every route must report an inverse (any residue mod 1 is one;
+                        // only is_some and, for Montgomery forms, the retrieved value 0 are specified)
+                        let some = Out::Val(vec![1]);
+                        let b = |v: bool| Out::Val(vec![v as u64]);
+                        cs.group();
+                        chk!(cs, "Uint::inv_odd_mod (m=1: is_some)", cls, &some, b(bool::from(ua.inv_odd_mod(&om).is_some())));
+                        chk!(cs, "Odd<Uint>::precompute_inverter.invert (m=1: is_some)", cls, &some, b(bool::from(om.precompute_inverter().invert(&ua).is_some())));
+                        chk!(cs, "Odd<Uint>::precompute_inverter.invert_vartime (m=1: is_some)", cls, &some, b(bool::from(om.precompute_inverter().invert_vartime(&ua).is_some())));
+                        let params = MontyParams::new_vartime(om);
+                        let x = MontyForm::new(&ua, params);
+                        chk!(cs, "MontyForm::inv (m=1: is_some)", cls, &some, b(bool::from(x.inv().is_some())));
+                        chk!(cs, "MontyForm::inv_vartime (m=1: is_some)", cls, &some, b(bool::from(x.inv_vartime().is_some())));
+                        chk!(cs, "MontyForm:Invert::invert (m=1: is_some)", cls, &some, b(bool::from(x.invert().is_some())));
+                        chk!(cs, "MontyForm:Invert::invert_vartime (m=1: is_some)", cls, &some, b(bool::from(x.invert_vartime().is_some())));
+                        chk!(cs, "MontyParams::precompute_inverter.invert (m=1: is_some)", cls, &some, b(bool::from(params.precompute_inverter().invert(&x).is_some())));
+                        chk!(cs, "MontyParams::precompute_inverter.invert_vartime (m=1: is_some)", cls, &some, b(bool::from(params.precompute_inverter().invert_vartime(&x).is_some())));
                     }
                 }
             });
@@ -322,7 +339,17 @@ fn fam_boxed(ctx: &Ctx) {
                 None => Out::None,
             };
             if m.is_one() {
-                chk!(cs, "Boxed::inv_mod (m=1: is_some)", cls, &Out::Val(vec![1]), Out::Val(vec![bool::from(xa.inv_mod(&xm).is_some()) as u64]));
+                let some = Out::Val(vec![1]);
+                let b = |v: bool| Out::Val(vec![v as u64]);
+                chk!(cs, "Boxed::inv_mod (m=1: is_some)", cls, &some, b(bool::from(xa.inv_mod(&xm).is_some())));
+                let om = Odd::new(xm.clone()).unwrap();
+                chk!(cs, "Boxed::inv_odd_mod (m=1: is_some)", cls, &some, b(bool::from(xa.inv_odd_mod(&om).is_some())));
+                chk!(cs, "Odd<Boxed>::precompute_inverter.invert (m=1: is_some)", cls, &some, b(bool::from(om.precompute_inverter().invert(&xa).is_some())));
+                chk!(cs, "Odd<Boxed>::precompute_inverter.invert_vartime (m=1: is_some)", cls, &some, b(bool::from(om.precompute_inverter().invert_vartime(&xa).is_some())));
+                let params = BoxedMontyParams::new_vartime(om);
+                let x = BoxedMontyForm::new(xa.clone(), params.clone());
+                chk!(cs, "BoxedMontyForm::invert (m=1: is_some)", cls, &some, b(bool::from(x.invert().is_some())));
+                chk!(cs, "BoxedMontyForm::invert_vartime (m=1: is_some)", cls, &some, b(bool::from(x.invert_vartime().is_some())));
                 return;
             }
             chk!(cs, "Boxed::inv_mod", cls, &exp, bo(xa.inv_mod(&xm)));
